@@ -1,7 +1,7 @@
 # per-property configuration of the checks (variant, budgets, expected probes, evidence texts)
 REAL_LIB = ["/repo/src/*.c compiled unmodified (array, builtin_hashes, conf, debug, dlinked_list, file, linked_list, mbuff, mem, "
             "module, msgs, obj, objpair, options, pthreads, regexp, socket, str, strings, snprintf, tok, url, ustr)"]
-STUBS = ["simalloc (malloc/calloc/realloc/free/strdup)", "simfd (read/write/close/dup/lseek/fcntl/select/socket/bind/listen/connect/accept)",
+STUBS = ["simalloc (malloc/calloc/realloc/free/strdup and the libc calls that allocate for the caller: strndup/getline/getdelim/asprintf/vasprintf/reallocarray)", "simfd (read/write/close/dup/lseek/fstat/fcntl/select/socket/bind/listen/connect/accept; stdio streams over a simulated descriptor)",
          "simfs (fopen/fdopen/access/stat/chdir/getcwd/opendir/readdir/mkstemp/umask/fchmod/remove/system)",
          "name service, time, getpid, rand, exit", "simtask scheduler + simulated clock"]
 COMMON_ASSUME = ["libc string/stdio routines below the renamed entry points are trusted",
